@@ -1,0 +1,67 @@
+//! Verification hooks, compiled only with `--cfg icy_engine_verif`.
+//!
+//! `sixel_gate` is called at the start of every sixel decode (the body of the background thread spawned for a
+//! sixel DCS). While the gate is disabled (the default) it returns immediately. When a test harness enables it,
+//! every decode takes the next ticket (its arrival index) and parks until the harness releases that ticket, so
+//! the harness decides in which order background decodes finish.
+use std::sync::{Condvar, Mutex};
+
+struct Gate {
+    enabled: bool,
+    arrived: usize,
+    released: Vec<usize>,
+    release_all: bool,
+}
+
+static GATE: Mutex<Gate> = Mutex::new(Gate {
+    enabled: false,
+    arrived: 0,
+    released: Vec::new(),
+    release_all: false,
+});
+static GATE_CV: Condvar = Condvar::new();
+
+fn lock() -> std::sync::MutexGuard<'static, Gate> {
+    GATE.lock().unwrap_or_else(std::sync::PoisonError::into_inner)
+}
+
+/// Enables the gate and resets tickets (`true`), or disables it and lets every parked decode run (`false`).
+pub fn sixel_gate_enable(on: bool) {
+    let mut g = lock();
+    g.enabled = on;
+    g.arrived = 0;
+    g.released.clear();
+    g.release_all = !on;
+    GATE_CV.notify_all();
+}
+
+/// Number of decodes that have reached the gate since it was enabled.
+pub fn sixel_gate_arrived() -> usize {
+    lock().arrived
+}
+
+/// Lets the decode holding `ticket` continue.
+pub fn sixel_gate_release(ticket: usize) {
+    let mut g = lock();
+    g.released.push(ticket);
+    GATE_CV.notify_all();
+}
+
+/// Lets every parked and every future decode continue.
+pub fn sixel_gate_release_all() {
+    let mut g = lock();
+    g.release_all = true;
+    GATE_CV.notify_all();
+}
+
+pub(crate) fn sixel_gate() {
+    let mut g = lock();
+    if !g.enabled {
+        return;
+    }
+    let ticket = g.arrived;
+    g.arrived += 1;
+    while g.enabled && !g.release_all && !g.released.contains(&ticket) {
+        g = GATE_CV.wait(g).unwrap_or_else(std::sync::PoisonError::into_inner);
+    }
+}
